@@ -2,7 +2,7 @@
    case the implementation ran (directory layout as filepath.Walk listed it, loader configuration, what the
    parent loader binds, operation sequence). *)
 From Coq Require Import ZArith NArith Bool List.
-From PcoreV Require Import Model.Base Model.FileLoader.
+From PcoreV Require Import Model.Base Model.FileLoader Model.FileLoaderText.
 Import ListNotations.
 Local Open Scope nat_scope.
 
@@ -16,9 +16,13 @@ Fixpoint sd_bytes (fuel : nat) (n : N) : str :=
 Definition sd (n : N) : str := rev (sd_bytes (N.size_nat n) n).
 
 Record ccase := {
+  cc_prev : list (world * list op);          (* the generations that ran before this one in the same process over the
+                                                same directory path (layout, operations); [] for the first *)
   cc_world : world;
   cc_ops : list op;
-  cc_outs : list (out * list (nat * str))    (* observed: outcome, files read (module, path) *)
+  cc_outs : list (out * list (nat * str));   (* observed: outcome, files read (module, path) *)
+  cc_texts : list (nat * str * str * nat)    (* (module, path, text of the file, position of the parser's reader when it
+                                                gave up - malformed files only) for files an observed error names *)
 }.
 
 (* layers of nested lookups: far more than any generated layout can nest (an exhausted model answers OFuel,
@@ -35,10 +39,26 @@ Definition world_ok (w : world) : bool :=
                                       | _ => true
                                       end) (m_walk m)) (w_mods w).
 
+(* the line numbers the world states for a file are those the line model computes on its text: the line of the
+   reader's position for a malformed file, the line where the first token starts otherwise *)
+Definition text_ok (w : world) (x : nat * str * str * nat) : bool :=
+  let '(i, p, text, pos) := x in
+  match file_at (mod_at w i) p with
+  | Some f => match f_content f with
+              | CMalformed l => N.eqb l (line_at text pos)
+              | CUnreadable => true
+              | _ => N.eqb (f_defline f) (def_line text)
+              end
+  | None => false
+  end.
+
+(* what the model answers for this generation: the whole session is run (the generations before it, then this
+   one); the answers of the earlier generations are dropped *)
+Definition c15_model (c : ccase) : list (out * list (nat * str)) :=
+  skipn (length (flat_map snd (cc_prev c))) (run_session c15_fuel (cc_prev c ++ [(cc_world c, cc_ops c)])).
+
 Definition c15_check (c : ccase) : bool :=
-  world_ok (cc_world c) && list_eqb outr_eqb (run (cc_world c) c15_fuel (cc_ops c)) (cc_outs c).
+  world_ok (cc_world c) && forallb (text_ok (cc_world c)) (cc_texts c) &&
+  list_eqb outr_eqb (c15_model c) (cc_outs c).
 
 Definition c15_mismatches (cs : list ccase) : list N := failing c15_check cs.
-
-(* for replay: what the model answers *)
-Definition c15_model (c : ccase) : list (out * list (nat * str)) := run (cc_world c) c15_fuel (cc_ops c).
